@@ -1,8 +1,13 @@
 use std::collections::VecDeque;
+#[cfg(folo_verif)]
+use std::sync::Arc;
+#[cfg(not(folo_verif))]
 use std::sync::{Arc, Mutex};
 use std::task::{Context, Poll, Waker};
 
 use crate::erased_future::ErasedFutureHandle;
+#[cfg(folo_verif)]
+use crate::verif::Mutex;
 use crate::waker_meta::{self, MetaPtr};
 
 /// Shared core implementation for both [`FutureDeque`][crate::FutureDeque]
@@ -146,6 +151,11 @@ impl<T> FutureDequeCore<T> {
                 .shared_parent
                 .lock()
                 .expect("we never panic while holding this lock");
+            #[cfg(folo_verif)]
+            crate::verif::event(&crate::verif::Event::ParentCheck {
+                parent: crate::verif::address_of::<Mutex<Waker>>(&self.shared_parent),
+                will_wake: parent.will_wake(cx.waker()),
+            });
             if !parent.will_wake(cx.waker()) {
                 parent.clone_from(cx.waker());
             }
@@ -170,8 +180,18 @@ impl<T> FutureDequeCore<T> {
 
                 let sub_cx = &mut Context::from_waker(waker);
 
+                #[cfg(folo_verif)]
+                crate::verif::event(&crate::verif::Event::PollFuture {
+                    meta: waker.data().addr(),
+                });
+
                 handle.as_pin_mut().poll_erased(sub_cx)
             };
+
+            #[cfg(folo_verif)]
+            crate::verif::event(&crate::verif::Event::PollFutureDone {
+                ready: poll_result.is_ready(),
+            });
 
             if let Poll::Ready(value) = poll_result {
                 // Replace the slot atomically before dropping the old `Slot::Pending`. The
